@@ -44,6 +44,27 @@ CHECKS = {
         "Lengths beyond the bound only through fixed long sequences (1e3, 2e4); mpmath at 50 digits is the trusted oracle.",
         "4/C02",
     ),
+    "C07": (
+        "model_checking",
+        "BFS over update/reset histories of each reparameterisation configured through the real proposal, with the full point lattice and every RNG answer evaluated in every state",
+        "80 (quick) / ~140 (thorough) configurations - every registered general and gravitational-wave reparameterisation name, each option value (rescale bounds, offset, update on/off, inversion split/duplicate on lower/upper/both, pre/post rescaling, angle conventions, with/without radial parameter, scale/shift estimation) over a 10-interval bounds alphabet - are set up through FlowProposal/GWFlowProposal.set_rescaling; update (three fixed batches hugging neither / the lower / the upper bound) and reset events are explored by BFS (depth 2 / 3); in every state the forward map under every edge-detection answer, both compute_radius values and three auxiliary radii, and the inverse map, are evaluated on a lattice containing both bounds, nextafter, 1e-12/1e-9/1e-6 of the range and interior points: round trip, bit-identical non-sampling fields, opposite log-Jacobians, log-Jacobian vs finite-difference Jacobian constant, prime prior = prior/Jacobian up to a constant with the same support; every answer of numpy.random.choice in split inversion for 4-point batches. A built-in configuration that nessai's own invertibility test refuses is a violation.",
+        "Folded (boundary-inversion) parameters are exercised on the current data bounds (outside them the fold is not injective and nessai never maps such points forwards); explicit radial parameters start 1e-6 of their range above zero; poles / identified end points of angular parameters are excluded within 1e-5 of the range. uniform-comoving-volume excluded (astropy absent).",
+        "4/C07",
+    ),
+    "C08": (
+        "exploration",
+        "flow-configuration lattice x weight states x point lattice with a hand-composed torch reference and 2-D quadrature",
+        "21 single deviations of the flow configuration x dims {2,4} x {float32,float64} x {fresh, trained, reset_weights, reset_permutations} (thorough adds the type x linear-transform x batch-norm product): inverse(forward(x)) == x, opposite log-determinants, density at generation == density at evaluation, FlowModel's array interface == the torch model composed by hand (incl. latent samples with an alternative latent distribution), and a 401x401 quadrature of the density in 2-D; for FlowProposal (every latent prior x reparameterisation x flow type) the density attached to a generated physical point equals the density of the same point passed forwards (with the latent-prior correction); for the importance proposal the densities returned by draw() equal those recomputed from the samples.",
+        "Tolerances by dtype (2e-4 / 1e-9), scaled by the local contraction exp(|log det|/d); comparisons whose amplification x machine epsilon exceeds 1e-3 are undecidable and skipped (untrained batch norm has zero running variance). Quadrature skipped for lars and for degenerate (width < 1e-6) flows.",
+        "4/C08",
+    ),
+    "C09": (
+        "exploration",
+        "population lattice with the acceptance variate behind an explorer-owned seam (every lattice value), pool monitors on real runs, inverse-CDF check of the radial samplers",
+        "For every configuration of the population lattice (latent prior x constant volume x accumulate_weights x truncate_log_q x reparameterisation x pool/draw sizes x uniform/ramp prior, radius options, augmented and clustering proposals, trained and untrained flows) the candidates and densities are captured at the backward-pass seam and populate() is run for every lattice shift k of the acceptance variates; the pool must be exactly the candidates with u < (prior/q)/max (running maximum when accumulating), in order, truncated to the requested size, and every latent draw must lie inside r*fuzz. Every population and every draw of the real-run lattices is monitored (bounds, logP/logL = model, exact size, indices a permutation and handed out once, latent contour) together with the likelihood-call guard. Radial samplers are checked as inverse-CDF maps on the variate lattice; rejection/analytic proposals on three models.",
+        "Decisions within 1e-12 of the acceptance boundary are not decided. Untrained flows are not combined with accumulate_weights/truncate_log_q (degenerate weights, documented max_samples escape).",
+        "4/C09",
+    ),
     "C10": (
         "exploration",
         "exhaustive grid over batch size, chunk size, pool, vectorisation and return shape, with every completion order of a controllable pool",
@@ -131,10 +152,11 @@ NOT_APPLICABLE = [
 ]
 
 ENGINES = [
-    {"name": "E1/E2 explorer", "path": "mc/explore.py", "serves_properties": ["C01", "C04", "C18"], "kind_free_text": "level-synchronous explicit-state BFS over real transition functions (history replay, canonical hashing, lock-step reference model); deviation-bounded choice-tree DFS"},
+    {"name": "E1/E2 explorer", "path": "mc/explore.py", "serves_properties": ["C01", "C04", "C07", "C18"], "kind_free_text": "level-synchronous explicit-state BFS over real transition functions (history replay, canonical hashing, lock-step reference model); deviation-bounded choice-tree DFS"},
     {"name": "real-run driver and monitors", "path": "mc/runs.py", "serves_properties": ["C01", "C03", "C05", "C11", "C12", "C13", "C14", "C15", "C19", "C20"], "kind_free_text": "tiny configurations of both samplers, kill-at-checkpoint resume histories, invariant monitors (mc/monitors.py), independent result oracles"},
     {"name": "E3 fault-enumerating file system", "path": "mc/faultfs.py", "serves_properties": ["C11"], "kind_free_text": "records exists/move/open/write/close/torch.save of the real code and enumerates every crash image incl. byte prefixes"},
     {"name": "E4 interruption injector", "path": "mc/interrupt.py", "serves_properties": ["C13"], "kind_free_text": "sys.settrace line/opcode events on nessai frames inside a window of the sampling loop; fires the installed signal handler at a chosen event; site de-duplication"},
+    {"name": "E6 lattice RNG seams", "path": "mc/rng.py", "serves_properties": ["C07", "C09", "C16"], "kind_free_text": "numpy.random.rand / choice / uniform replaced at named nessai call sites by explorer-owned lattice values"},
     {"name": "runner", "path": "mc/core.py", "serves_properties": [], "kind_free_text": "context, 16-process fork pool, evidence writer with schema validation, known-finding matcher, replay files"},
 ]
 
